@@ -3,7 +3,10 @@ from harness.gen.ftree import container, leaf
 
 
 def _docs(e):
-    return list(getattr(e, "doc_list", []) or [])
+    """doc lines without empty ones: FORD emits an empty documentation line for a blank line that follows
+    documentation (also for the blank line that ends a `!*` block); the generator never writes empty doc
+    lines, so dropping them loses nothing that was declared"""
+    return [x for x in (getattr(e, "doc_list", []) or []) if x.strip() != ""]
 
 
 def var_leaf(v):
